@@ -378,6 +378,21 @@ def finish(ctx, G, S, where):
             S2 = Shadow("bipartite", L=S.L, R=S.R)
             S2.E = set(S.edges())
         compare(ctx, H, S2, where + " after %s(to_networkx())" % how)
+    if kind in ("simple", "digraph") and S.n >= 1:
+        # the same networkx graph under other labels that sort the same way: floats and fractions equal to 1..n, and
+        # arbitrary increasing numbers (the documented conversion numbers the vertices by sorted label)
+        from fractions import Fraction
+        for tag, f in (("float labels 1.0..n", float), ("Fraction labels", Fraction), ("labels 10v+0.5", lambda v: 10 * v + 0.5),
+                       ("mixed int/float labels", lambda v: float(v) if v % 2 else v)):
+            Y = (networkx.DiGraph() if kind == "digraph" else networkx.Graph())
+            Y.add_nodes_from(f(v) for v in range(1, S.n + 1))
+            Y.add_edges_from((f(a), f(b)) for a, b in X.edges())
+            ctx.count("networkx_relabelled_inputs")
+            st, H = ctx.call(cls.from_networkx, Y)
+            if st == "exc":
+                ctx.violation(kind + ":from_networkx-raises", "%s: from_networkx of the same graph with %s raised %r" % (where, tag, H))
+                return
+            compare(ctx, H, S, where + " after from_networkx(%s)" % tag)
     if cls.normalize(G) is not G:
         ctx.violation(kind + ":normalize-copies", "%s: normalize() of a cnfgen graph returned another object" % where)
 
